@@ -41,6 +41,8 @@ type Child struct {
 	Kind  string `json:"kind"` // asgL asgI func meth three
 	Fails bool   `json:"fails"`
 	Val   int64  `json:"val"`
+	// FailsQ: on a pool with several requests running the block at once, the child fails only in this request (0: in all)
+	FailsQ int64 `json:"failsq"`
 }
 
 type Session struct {
@@ -56,6 +58,7 @@ type Session struct {
 	Calls    []dispatch.Call `json:"calls"`
 	Blocks   [][]Child       `json:"blocks"`
 	Nest     string          `json:"nest"` // conc: plain | if | for
+	NReq     int             `json:"nreq"` // conc on a pool: this many requests run the body at the same time
 }
 
 // ---------------------------------------------------------------- locals
@@ -313,14 +316,27 @@ type Inner struct{}
 
 var curChildren map[string]Child
 
+// on a pool the child ids arrive as "<request>:<child>"
+func splitQ(id string) (int64, string) {
+	if i := strings.Index(id, ":"); i > 0 {
+		var q int64
+		fmt.Sscanf(id[:i], "%d", &q)
+		return q, id[i+1:]
+	}
+	return 0, id
+}
+
+func childFails(c Child, q int64) bool { return c.Fails && (c.FailsQ == 0 || c.FailsQ == q) }
+
 func childDo(id string) int64 {
-	c := curChildren[id]
-	theObs.EmitStart(obs.Event{"ev": "cstart", "c": id}, id)
-	if c.Fails {
-		theObs.EmitEnd(obs.Event{"ev": "cend", "c": id, "out": "fail"})
+	q, cid := splitQ(id)
+	c := curChildren[cid]
+	theObs.EmitStart(obs.Event{"ev": "cstart", "c": cid, "q": q}, id)
+	if childFails(c, q) {
+		theObs.EmitEnd(obs.Event{"ev": "cend", "c": cid, "out": "fail", "q": q})
 		panic("child " + id + " fails")
 	}
-	theObs.EmitEnd(obs.Event{"ev": "cend", "c": id, "out": "ok"})
+	theObs.EmitEnd(obs.Event{"ev": "cend", "c": cid, "out": "ok", "q": q})
 	return c.Val
 }
 
@@ -328,6 +344,17 @@ func (o *Obj) Hold(id string) int64   { return childDo(id) }
 func (i *Inner) Hold(id string) int64 { return childDo(id) }
 
 func concText(s *Session) string {
+	pooled := s.Target == "pool"
+	idx := func(id string) string {
+		if pooled {
+			return "q + \"" + id + "\""
+		}
+		return "\"" + id + "\""
+	}
+	qa := ""
+	if pooled {
+		qa = "q, "
+	}
 	var sb strings.Builder
 	sb.WriteString("rule \"c\" \"d\" salience 1\nbegin\n  loc = mkloc()\n")
 	n := 0
@@ -347,26 +374,26 @@ func concText(s *Session) string {
 			n++
 			switch c.Kind {
 			case "asgL":
-				fmt.Fprintf(&sb, "%s  v%d = hold(\"%s\")\n", ind, n, c.ID)
-				seen = append(seen, fmt.Sprintf("see(\"%s\", v%d)", c.ID, n))
+				fmt.Fprintf(&sb, "%s  v%d = hold(%s)\n", ind, n, idx(c.ID))
+				seen = append(seen, fmt.Sprintf("see(%s\"%s\", v%d)", qa, c.ID, n))
 			case "asgI":
-				fmt.Fprintf(&sb, "%s  obj.F%d = hold(\"%s\")\n", ind, n, c.ID)
-				seen = append(seen, fmt.Sprintf("see(\"%s\", obj.F%d)", c.ID, n))
+				fmt.Fprintf(&sb, "%s  obj.F%d = hold(%s)\n", ind, n, idx(c.ID))
+				seen = append(seen, fmt.Sprintf("see(%s\"%s\", obj.F%d)", qa, c.ID, n))
 			case "methL":
-				fmt.Fprintf(&sb, "%s  loc.Hold(\"%s\")\n", ind, c.ID)
+				fmt.Fprintf(&sb, "%s  loc.Hold(%s)\n", ind, idx(c.ID))
 			case "asgML":
-				fmt.Fprintf(&sb, "%s  v%d = loc.Hold(\"%s\")\n", ind, n, c.ID)
-				seen = append(seen, fmt.Sprintf("see(\"%s\", v%d)", c.ID, n))
+				fmt.Fprintf(&sb, "%s  v%d = loc.Hold(%s)\n", ind, n, idx(c.ID))
+				seen = append(seen, fmt.Sprintf("see(%s\"%s\", v%d)", qa, c.ID, n))
 			case "func":
-				fmt.Fprintf(&sb, "%s  hold(\"%s\")\n", ind, c.ID)
+				fmt.Fprintf(&sb, "%s  hold(%s)\n", ind, idx(c.ID))
 			case "meth":
-				fmt.Fprintf(&sb, "%s  obj.Hold(\"%s\")\n", ind, c.ID)
+				fmt.Fprintf(&sb, "%s  obj.Hold(%s)\n", ind, idx(c.ID))
 			case "three":
-				fmt.Fprintf(&sb, "%s  obj.In.Hold(\"%s\")\n", ind, c.ID)
+				fmt.Fprintf(&sb, "%s  obj.In.Hold(%s)\n", ind, idx(c.ID))
 			}
 		}
 		sb.WriteString(ind + "}\n")
-		fmt.Fprintf(&sb, "%safter(%d)\n", ind, bi+1)
+		fmt.Fprintf(&sb, "%safter(%s%d)\n", ind, qa, bi+1)
 		for _, x := range seen {
 			sb.WriteString(ind + x + "\n")
 		}
@@ -392,6 +419,9 @@ func runConc(s *Session, quiet time.Duration, seed int64, tmo time.Duration) ([]
 			bl = append(bl, map[string]interface{}{"id": c.ID, "kind": c.Kind, "fails": c.Fails, "val": c.Val})
 		}
 		blocks = append(blocks, bl)
+	}
+	if s.Target == "pool" {
+		return runConcPool(s, o, tmo)
 	}
 	all = append(all, obs.Event{"ev": "cbegin", "blocks": blocks})
 	text := concText(s)
@@ -439,6 +469,90 @@ func runConc(s *Session, quiet time.Duration, seed int64, tmo time.Duration) ([]
 	all = append(all, o.Take()...)
 	if !ok {
 		all = append(all, obs.Event{"ev": "timeout"})
+	}
+	return all, ok
+}
+
+// the same body run by several pool requests at the same moment (the instances of a pool share the compiled rule):
+// every request's events form a session of their own, validated like a single execution
+func runConcPool(s *Session, o *obs.Obs, tmo time.Duration) ([]obs.Event, bool) {
+	text := concText(s)
+	api := map[string]interface{}{
+		"hold": childDo,
+		"yes":  func() bool { return true },
+		"after": func(q string, b int64) {
+			n, _ := splitQ(q + "x")
+			o.Emit(obs.Event{"ev": "after", "b": b, "q": n})
+		},
+		"see": func(q string, c string, v int64) {
+			n, _ := splitQ(q + "x")
+			o.Emit(obs.Event{"ev": "see", "c": c, "val": v, "q": n})
+		},
+		"mkloc": func() *Obj { return &Obj{In: &Inner{}} },
+	}
+	nreq := s.NReq
+	if nreq < 1 {
+		nreq = 2
+	}
+	pool, err := engine.NewGenginePool(int64(nreq), int64(nreq)+1, engine.SortModel, text, api)
+	if err != nil {
+		fmt.Fprintf(os.Stderr, "driver: session %d: pool construction failed: %v\n%s\n", s.ID, err, text)
+		os.Exit(2)
+	}
+	if s.Gated {
+		o.StartController()
+	}
+	var wg sync.WaitGroup
+	for q := 1; q <= nreq; q++ {
+		wg.Add(1)
+		go func(q int64) {
+			defer wg.Done()
+			var err error
+			var pv interface{}
+			func() {
+				defer func() {
+					if r := recover(); r != nil {
+						pv = r
+					}
+				}()
+				err, _ = pool.Execute(map[string]interface{}{"q": fmt.Sprintf("%d:", q), "obj": &Obj{In: &Inner{}}}, true)
+			}()
+			o.Emit(obs.Event{"ev": "creturn", "err": err != nil, "panic": pv != nil, "q": q})
+		}(int64(q))
+	}
+	done := make(chan struct{})
+	go func() { wg.Wait(); close(done) }()
+	ok := true
+	select {
+	case <-done:
+	case <-time.After(tmo):
+		ok = false
+	}
+	o.StopController()
+	if ok && !o.Drain(tmo) {
+		ok = false
+	}
+	evs := o.Take()
+	var all []obs.Event
+	for q := int64(1); q <= int64(nreq); q++ {
+		all = append(all, obs.Event{"ev": "session", "id": s.ID*100 + int(q)})
+		blocks := make([][]map[string]interface{}, 0)
+		for _, b := range s.Blocks {
+			bl := make([]map[string]interface{}, 0)
+			for _, c := range b {
+				bl = append(bl, map[string]interface{}{"id": c.ID, "kind": c.Kind, "fails": childFails(c, q), "val": c.Val})
+			}
+			blocks = append(blocks, bl)
+		}
+		all = append(all, obs.Event{"ev": "cbegin", "blocks": blocks})
+		for _, e := range evs {
+			if eq, _ := e["q"].(int64); eq == q {
+				all = append(all, e)
+			}
+		}
+		if !ok {
+			all = append(all, obs.Event{"ev": "timeout"})
+		}
 	}
 	return all, ok
 }
